@@ -388,8 +388,16 @@ impl Server for Unreal2Server {
         match self.outcomes[k].get(n).copied().unwrap_or(Outcome::Valid) {
             Outcome::Silent | Outcome::Partial => {}
             Outcome::Malformed => {
-                if cx.draw(2) == 0 {
+                let v = cx.draw(3);
+                if v == 0 {
                     cx.udp_send(from, vec![0x80, 0, 0]);
+                } else if v == 2 && k != 0 && (if k == 1 { &self.rules } else { &self.players }).len() >= 2 {
+                    // a list of several datagrams whose first one is fine and whose next one is cut inside an
+                    // entry (only where the first datagram does not already complete the list)
+                    let list = if k == 1 { &self.rules } else { &self.players };
+                    let first = list.first().cloned().unwrap_or_else(|| vec![0x80, 0, 0, 0, k as u8]);
+                    cx.udp_send(from, first);
+                    cx.udp_send_after(from, vec![0x80, 0, 0, 0, k as u8, 0x30, 1, 2], 10_000);
                 } else {
                     // a complete valid datagram - of another packet type
                     let mut d = match k {
